@@ -150,7 +150,24 @@ pub fn jsonld_shapes(rng: &mut Rng, d: &mut Vec<Q>) {
         }
     };
     let g = rng.pick(&gs).clone();
-    match rng.below(5) {
+    match rng.below(6) {
+        5 => {
+            // lists that contain themselves: an item of a cell is the head of its own list, the cell itself, or the head of a list
+            // that contains the first one
+            let (h, c2, h2) = (60, 61, 62);
+            push(d, ([b(h), rdf("first"), iri("http://ex/i1")], g.clone()));
+            push(d, ([b(h), rdf("rest"), b(c2)], g.clone()));
+            let item = match rng.below(3) { 0 => b(h), 1 => b(c2), _ => b(h2) };
+            push(d, ([b(c2), rdf("first"), item], g.clone()));
+            push(d, ([b(c2), rdf("rest"), rdf("nil")], g.clone()));
+            if rng.chance(1, 2) {
+                push(d, ([b(h2), rdf("first"), b(h)], g.clone()));
+                push(d, ([b(h2), rdf("rest"), rdf("nil")], g.clone()));
+            }
+            if rng.chance(1, 2) {
+                push(d, ([iri("http://ex/a"), iri("http://ex/p"), b(h)], g.clone()));
+            }
+        }
         4 => {
             // several values of one subject and property that become EQUAL JSON values: distinct lists with item-wise equal content
             // (same or different length), next to plain values equal to their items
